@@ -6,14 +6,14 @@ use super::super::*;
 use crate::lhs_types::verif_kani::common::array_owned;
 use crate::lhs_types::Bytes;
 
-/// Three Bytes arguments of lengths 2, 1, 2 (symbolic bytes), each present or a
-/// typed absence.
+/// Three one-byte Bytes arguments (symbolic bytes), each present or a typed absence.
 #[kani::proof]
-#[kani::unwind(8)]
+#[kani::stub(std::mem::drop, crate::lhs_types::verif_kani::common::mem_drop__releases_nothing_observable)]
+#[kani::unwind(4)]
 fn concat_bytes__present_args_in_order() {
-    let a: [u8; 2] = kani::any();
+    let a: [u8; 1] = kani::any();
     let b: [u8; 1] = kani::any();
-    let c: [u8; 2] = kani::any();
+    let c: [u8; 1] = kani::any();
     let pa: bool = kani::any();
     let pb: bool = kani::any();
     let pc: bool = kani::any();
@@ -24,12 +24,11 @@ fn concat_bytes__present_args_in_order() {
     ];
     let mut it = args.into_iter();
     let got = concat_impl(&mut it);
-    let mut want = [0u8; 5];
+    let mut want = [0u8; 3];
     let mut n = 0;
     if pa {
         want[n] = a[0];
-        want[n + 1] = a[1];
-        n += 2;
+        n += 1;
     }
     if pb {
         want[n] = b[0];
@@ -37,33 +36,28 @@ fn concat_bytes__present_args_in_order() {
     }
     if pc {
         want[n] = c[0];
-        want[n + 1] = c[1];
-        n += 2;
+        n += 1;
     }
-    match got {
+    match &got {
         Some(LhsValue::Bytes(r)) => {
             assert!(pa || pb || pc, "absent if all arguments are absent");
             assert!(r.len() == n, "exactly the present arguments joined");
-            let mut i = 0;
-            while i < 5 {
-                if i < n {
-                    assert!(r[i] == want[i], "present arguments in order");
-                }
-                i += 1;
-            }
-            std::mem::forget(r);
+            assert!(n < 1 || r[0] == want[0], "present arguments in order");
+            assert!(n < 2 || r[1] == want[1], "present arguments in order");
+            assert!(n < 3 || r[2] == want[2], "present arguments in order");
         }
         None => {
             assert!(!pa && !pb && !pc, "present arguments give a present result");
         }
-        Some(v) => {
-            std::mem::forget(v);
+        Some(_) => {
             assert!(false, "bytes arguments give a bytes result");
         }
     }
     kani::cover!(!pa && pb && !pc, "only the middle argument is present");
     kani::cover!(pa && !pb && pc, "an absent argument between present ones");
     kani::cover!(!pa && !pb && !pc, "all absent");
+    std::mem::forget(got);
+    std::mem::forget(it);
 }
 
 fn one(x: i64) -> Array<'static> {
@@ -93,7 +87,8 @@ fn expect_elem(arr: &Array<'_>, i: usize, want: i64) {
 /// Array(Int) arguments: {x} (present or absent), ABSENT, {y, z}: the absent
 /// middle argument does not stop the concatenation.
 #[kani::proof]
-#[kani::unwind(8)]
+#[kani::stub(std::mem::drop, crate::lhs_types::verif_kani::common::mem_drop__releases_nothing_observable)]
+#[kani::unwind(4)]
 fn concat_arrays__present_args_in_order() {
     let x: i64 = kani::any();
     let y: i64 = kani::any();
@@ -106,23 +101,22 @@ fn concat_arrays__present_args_in_order() {
         Ok(LhsValue::Array(two(y, z))),
     ];
     let mut it = args.into_iter();
-    match concat_impl(&mut it) {
+    let got = concat_impl(&mut it);
+    match &got {
         Some(LhsValue::Array(arr)) => {
             assert!(arr.value_type() == Type::Int, "the element type is kept");
             if first_present {
                 assert!(arr.len() == 3, "all present arguments contribute");
-                expect_elem(&arr, 0, x);
-                expect_elem(&arr, 1, y);
-                expect_elem(&arr, 2, z);
+                expect_elem(arr, 0, x);
+                expect_elem(arr, 1, y);
+                expect_elem(arr, 2, z);
             } else {
                 assert!(arr.len() == 2, "all present arguments contribute");
-                expect_elem(&arr, 0, y);
-                expect_elem(&arr, 1, z);
+                expect_elem(arr, 0, y);
+                expect_elem(arr, 1, z);
             }
-            std::mem::forget(arr);
         }
-        Some(v) => {
-            std::mem::forget(v);
+        Some(_) => {
             assert!(false, "array arguments give an array result");
         }
         None => {
@@ -131,6 +125,8 @@ fn concat_arrays__present_args_in_order() {
     }
     kani::cover!(first_present);
     kani::cover!(!first_present);
+    std::mem::forget(got);
+    std::mem::forget(it);
 }
 
 /// All array arguments absent: the result is absent.
